@@ -70,3 +70,37 @@ Theorem C01_pipeline :
            Some (root (gi_rules gi) tr) = hd_error (rhs_of (gi_rules gi) 0) /\ yield tr = w /\ post tr = reds.
 Proof. exact PipelineRun.pipeline_dense_sound. Qed.
 Print Assumptions C01_pipeline.
+
+From YG Require Import LRBase Pipeline Fast.
+Close Scope Z_scope.
+Open Scope nat_scope.
+
+(* the function the extracted oracle runs (row displacement computed once instead of once per row) is the function of the theorems *)
+Theorem C01_oracle_is_the_proved_pipeline :
+  forall gi : ginfo, generate_tables_fast gi = generate_tables gi.
+Proof. exact Fast.generate_tables_fast_eq. Qed.
+Print Assumptions C01_oracle_is_the_proved_pipeline.
+
+From YG Require Import Lexer YParser EndToEnd EndToEndProofs.
+Close Scope Z_scope.
+Open Scope nat_scope.
+
+(* ... also from the bytes of the grammar file *)
+Theorem C01_oracle_text_pipeline :
+  forall s : list Ascii.ascii, generate_text_fast s = generate_text s.
+Proof. exact EndToEndProofs.generate_text_fast_eq. Qed.
+Print Assumptions C01_oracle_text_pipeline.
+
+From YG Require Import LRBase Pipeline Fast.
+Close Scope Z_scope.
+Open Scope nat_scope.
+
+(* ... and the prefix of the pipeline used for grammars too large for the model's row displacement returns the corresponding fields of generate_tables *)
+Theorem C01_oracle_dense_only :
+  forall gi : ginfo,
+         generate_dense gi = match generate_tables gi with
+                             | inl e => inl e
+                             | inr t => inr (dense_part t)
+                             end.
+Proof. exact Fast.generate_dense_spec. Qed.
+Print Assumptions C01_oracle_dense_only.
